@@ -1079,13 +1079,14 @@ def _iter_leftmost_one(ctx, roles, v, info, rules):
         _safe_str(ctx, v, info, b, root, wt, wbi, wsi, psite, pbi, tag)
     # ---- emission
     loop_reports = []
+    end_reports = []
     for vw, bi, si, agg in info.reports:
         f = dict(agg[3])
         ln = accessor_inline(lib, f["length"], [v.O])
         val = accessor_inline(lib, f["value"], [v.O])
         end = f["end"]
         loc = vw.body.loc(bi, si)
-        where = "loop" if vw is root else "end"
+        where = "loop" if (vw is root and b.edge_guards((sbi, some_arm), bi)) else "end"
         okrec = ln[0] == "field" and ln[3] == "length" and val[0] == "field" and val[3] == "value" and ln[1] == val[1]
         if want("VAL-MATCH"):
             ctx.check(okrec, "VAL-MATCH", vw.body, "length-value-same-record:%s:%s" % (tag, where), loc,
@@ -1106,13 +1107,20 @@ def _iter_leftmost_one(ctx, roles, v, info, rules):
         if want("ITER-LM"):
             ctx.check(okend, "ITER-LM", vw.body, "end-is-pos:%s:%s" % (tag, where), loc,
                       "the end of a leftmost match is self.pos (end of the last candidate); found %s" % show(end))
-        if vw is root:
+        if vw is root and b.edge_guards((sbi, some_arm), bi):
             loop_reports.append((bi, si))
             if want("ITER-LM"):
                 csw = switches_on(root, lambda d: d[0] == "discr" and core.same(d[1], cand))
                 g = any(b.edge_guards((cbi, opt_arms(ct)[0]), bi) for cbi, ct, _ in csw)
                 ctx.check(b.edge_guards((rbi, is_root_arm), bi) and g, "ITER-LM", b, "emit-on-root:" + tag, loc,
                           "inside the loop a match is emitted only when the automaton fell back to ROOT and a candidate exists")
+        elif vw is root:
+            end_reports.append((bi, si))
+            if want("ITER-LM"):
+                csw = switches_on(root, lambda d: d[0] == "discr" and core.same(d[1], cand))
+                g = any(b.edge_guards((cbi, opt_arms(ct)[0]), bi) for cbi, ct, _ in csw)
+                ctx.check(b.edge_guards((sbi, none_arm), bi) and g, "ITER-LM", b, "emit-at-end-guard:" + tag, loc,
+                          "after the loop the pending candidate is emitted only if there is one")
     if want("ITER-LM"):
         ctx.check(len(loop_reports) >= 1, "ITER-LM", b, "has-loop-emit:" + tag, b.span,
                   "the loop must emit the candidate when the automaton returns to ROOT")
@@ -1122,7 +1130,7 @@ def _iter_leftmost_one(ctx, roles, v, info, rules):
         oke = len(endcalls) == 1 and b.edge_guards((sbi, none_arm), endcalls[0][1]) and core.same(root.op(endcalls[0][2]["args"][0]), cand)
         if not endcalls:
             # alternative shape: explicit match on the candidate after the loop
-            oke = any(vw is root and b.edge_guards((sbi, none_arm), bi) for vw, bi, si, agg in info.reports)
+            oke = bool(end_reports)
         ctx.check(oke, "ITER-LM", b, "emit-at-end:" + tag, b.span,
                   "at end of input the pending candidate (if any) must be emitted")
         # a ROOT fallback without candidate continues scanning
